@@ -3,7 +3,7 @@
 //! treats some *larger* capacity specially (a 64-bit occupancy mask, chunks of 8 or 16 slots,
 //! a u8 length) is outside that space. This engine enumerates a structured family instead:
 //!
-//!   capacity C in {7,8,9, 15,16,17, 31,32,33, 63,64,65, 127,128,129, 255,256,257}
+//!   capacity C in {7,8,9, 15,16,17, 31,32,33, 63,64,65, 127,128,129, 255,256,257} (`--huge`: also 511-513, 1023-1025)
 //!   x fill level f in {0, 1, 2, C/2, C-1, C}
 //!   x internal order {ascending insertion, descending insertion, ascending then the first
 //!     half removed and re-inserted (swap-remove shuffles the slots)}
@@ -374,7 +374,8 @@ fn main() {
     silence_panics();
     install_crash_handler(args.get("crumb"));
     let mut rep = EngineReport::new("wide_mc", args.props());
-    let big = args.flag("big");
+    let big = !args.flag("small");
+    let huge = args.flag("huge");
     run_cap::<7, 8>(&mut rep);
     run_cap::<8, 9>(&mut rep);
     run_cap::<9, 8>(&mut rep);
@@ -394,6 +395,14 @@ fn main() {
         run_cap::<255, 256>(&mut rep);
         run_cap::<256, 257>(&mut rep);
         run_cap::<257, 256>(&mut rep);
+    }
+    if huge {
+        run_cap::<511, 512>(&mut rep);
+        run_cap::<512, 513>(&mut rep);
+        run_cap::<513, 512>(&mut rep);
+        run_cap::<1023, 1024>(&mut rep);
+        run_cap::<1024, 1025>(&mut rep);
+        run_cap::<1025, 1024>(&mut rep);
     }
     std::process::exit(rep.finish(args.get("out")));
 }
